@@ -20,14 +20,15 @@ EXTENDS Naturals, Sequences, FiniteSets, TLC
 CONSTANTS Conn, Ident, MaxAtt, Weak,
           AVals,      \* slice of {"good","zero","N","missing","replay"}; replay = A and proof recorded byte for byte from an
                       \* accepted exchange on ANOTHER connection (the proof is then whatever was recorded)
-          Proofs,     \* slice of {"right","wrong","missing"}
-          Seals,      \* slice of {"this","other","zero","random"}
+          Proofs,     \* slice of {"right","wrong","missing","nilkey"}; nilkey = the proof anybody can compute for an SRP
+                      \* session whose key was never set (K = empty string)
+          Seals,      \* slice of {"this","other","zero","random","nilkey"}; nilkey = HKDF of an empty secret
           Bodies,     \* slice of {"genuine","badsig","mismatch","badtlv"}
           Shapes      \* slice of {"ok","tagflip","ctflip","short","empty"}
 
 VARIABLES step,    \* [Conn -> {"Waiting","StartResp","VerifyResp","Done"}]
           S,       \* [Conn -> 0..MaxAtt]  server's SRP secret: id of the attempt that set it (0 = nil)
-          K,       \* [Conn -> 0..MaxAtt]  server's encryption key (0 = all-zero)
+          K,       \* [Conn -> 0..MaxAtt+1]  server's encryption key (0 = all-zero, Deg = HKDF of a nil secret: public)
           att,     \* [Conn -> 0..MaxAtt]  verify attempts with an acceptable A so far
           pS,      \* [Conn -> 0..MaxAtt]  the secret / key the PEER holds (0 = none; it can always use nil / zero)
           proved,  \* [Conn -> BOOLEAN]    ghost: a right proof was accepted since the last accepted start
@@ -36,6 +37,7 @@ VARIABLES step,    \* [Conn -> {"Waiting","StartResp","VerifyResp","Done"}]
 
 vars == <<step, S, K, att, pS, proved, store, last>>
 Guard(g) == g \notin Weak
+Deg == MaxAtt + 1
 
 Init == /\ step = [c \in Conn |-> "Waiting"] /\ S = [c \in Conn |-> 0] /\ K = [c \in Conn |-> 0]
         /\ att = [c \in Conn |-> 0] /\ pS = [c \in Conn |-> 0] /\ proved = [c \in Conn |-> FALSE]
@@ -69,8 +71,15 @@ Verify(c, A, proof) ==
   /\ IF step[c] # "StartResp"
      THEN /\ Reset(c) /\ Reply(c, m, "HttpError") /\ UNCHANGED <<S, K, att, pS, proved, store>>
      ELSE IF A \notin {"good", "replay"}      \* ComputeKey rejects A mod N = 0 (a missing A is empty = 0): :128-131
-     THEN /\ step' = [step EXCEPT ![c] = IF Guard("verify_bad_A_resets") THEN "Waiting" ELSE "VerifyResp"]
-          /\ Reply(c, m, "HttpError") /\ UNCHANGED <<S, K, att, pS, proved, store>>
+     THEN IF Guard("bad_A_stops_exchange")
+          THEN /\ step' = [step EXCEPT ![c] = IF Guard("verify_bad_A_resets") THEN "Waiting" ELSE "VerifyResp"]
+               /\ Reply(c, m, "HttpError") /\ UNCHANGED <<S, K, att, pS, proved, store>>
+          \* without that guard the proof is compared with the one of a session whose key is whatever it was before
+          \* (nil unless an earlier A was accepted), and the encryption key is derived from that secret
+          ELSE IF proof = "nilkey" /\ S[c] = 0
+          THEN /\ step' = [step EXCEPT ![c] = "VerifyResp"] /\ K' = [K EXCEPT ![c] = Deg]
+               /\ Reply(c, m, "M4proof") /\ UNCHANGED <<S, att, pS, proved, store>>
+          ELSE /\ Reset(c) /\ Reply(c, m, "M4err2") /\ UNCHANGED <<S, K, att, pS, proved, store>>
      ELSE LET n == att[c] + 1 IN
           /\ att' = [att EXCEPT ![c] = n]
           /\ S' = [S EXCEPT ![c] = n]                       \* set before the proof is looked at
@@ -92,6 +101,7 @@ Opens(c, seal, shape) ==
   \/ /\ shape = "ok"
      /\ \/ seal = "this" /\ pS[c] # 0 /\ K[c] = pS[c]
         \/ seal = "zero" /\ K[c] = 0
+        \/ seal = "nilkey" /\ K[c] = Deg
 \* the signature covers HKDF(S): it verifies when the peer signed with the secret the server holds
 SigOK(c, seal, body) ==
   \/ body = "genuine" /\ S[c] = (IF seal = "this" THEN pS[c] ELSE 0)
@@ -136,9 +146,9 @@ StoreRuleP(st, st2, m, prv) ==
 StoreRule == [][ StoreRuleP(store, store', last'.m, IF last'.c \in Conn THEN proved[last'.c] ELSE FALSE) ]_vars
 
 TypeOK == /\ step \in [Conn -> {"Waiting", "StartResp", "VerifyResp", "Done"}]
-          /\ S \in [Conn -> 0..MaxAtt] /\ K \in [Conn -> 0..MaxAtt] /\ pS \in [Conn -> 0..MaxAtt]
+          /\ S \in [Conn -> 0..MaxAtt] /\ K \in [Conn -> 0..MaxAtt + 1] /\ pS \in [Conn -> 0..MaxAtt]
           /\ store \subseteq Ident
-KeyNeedsProof == \A c \in Conn : K[c] # 0 => pS[c] = K[c]
+KeyNeedsProof == \A c \in Conn : K[c] # 0 => pS[c] = K[c]      \* in particular K is never Deg
 
 View == <<step, S, K, att, pS, proved, store>>
 =======================================================================
